@@ -27,6 +27,7 @@ NAMES = [["alpha", "dataset_name", "a", "lr"], ["beta", "tfds_dir", "b", "moment
          ["delta", "n_steps", "d", "eps"], ["epsilon", "data_loader", "e", "decay"], ["zeta", "log_dir", "f", "nesterov"],
          ["eta", "batch_size", "g", "clip"], ["theta", "n_epochs", "h", "amsgrad"]]
 
+CAND_NAMES = ["dataset_name", "user_id"]     # primary-key candidates by name (C05)
 INT_POS = [5, 1, 42, 100]
 INT_NEG = [-3, -1, -42]
 FLOAT_POS = [0.5, 0.001, 2.5]
@@ -146,7 +147,7 @@ class Gamma(object):
         """abstract interface -> concrete IR"""
         params = OrderedDict()
         for k, p in enumerate(i["params"]):
-            nm = self.name(k, salt)
+            nm = CAND_NAMES[k % len(CAND_NAMES)] if p.get("nm") == "cand" else self.name(k, salt)
             params[nm] = self.entry(p, nm, salt + k)
         ret = None
         if i["ret"]["typ"] != "none":
@@ -167,7 +168,7 @@ class Gamma(object):
                     "def_any": e["def"] == "any", "wild": bool(e.get("wild"))}
         params = []
         for k, e in enumerate(x["params"]):
-            nm = e.get("name") or self.name(k, salt)
+            nm = e.get("name") or (CAND_NAMES[k % len(CAND_NAMES)] if e.get("nm") == "cand" else self.name(k, salt))
             params.append([nm, ent(e, nm, salt + k, i["params"][k]["typ"] if k < len(i["params"]) else "absent")])
         ret = ent(x["ret"], "result", salt, i["ret"]["typ"])
         doc = {"absent": "", "one": "The summary line", "multi": "The summary line\n\nA longer paragraph of prose.",
